@@ -59,13 +59,13 @@ for be in BACKS:
                 Aux('set_sequence_call', 'void', SM, SC + ['struct set_sequence'], 'void operator ( )', params='char seq_, pair_t* d',
                      xform=back_xform([], refparams=(), rewrites=[dict(name='REF', pat='d . second', rep='d -> second', min=1, max=1)]))]
     if body_rw:
-        UNITS.append(Unit(be + '.do_handle_deferred.bounded', ['C05', 'C13'], be,
+        UNITS.append(Unit(be + '.do_handle_deferred.bounded', ['C05', 'C20', 'C13'], be,
             Part(SM, SC, 'void do_handle_deferred ( bool new_seq = false )', xform=back_xform([], refparams=(), rewrites=body_rw)),
             'void do_handle_deferred(helper_t* m_events_queue, _Bool new_seq)', 'deferred_back_bounded.spec.h', mode='bounded',
             aux=auxs, cbmc_flags=['--no-signed-overflow-check'],
             harness=HARNESS, unwind={'quick': 2 * 3 + 4, 'thorough': 2 * 4 + 4}, defines=['QN=3', 'BUDGET=2'],
             bounded='deferred queue length <= 3 (thorough: 4), at most 2 handled events per call (recursion depth), full-range char m_cur_seq, every result code 0..7 of a re-dispatched occurrence; insertion sort stands in for std::stable_sort',
-            timeout=600, replay=['defer']))
+            timeout=600, replay=['defer', 'queue']))
 
 MQ = [dict(name='member-seq', pat='self -> m_deferred_events_queue . m_cur_seq', rep='CUR_SEQ ( self )', min=0),
       dict(name='CONT-push', pat='self -> m_deferred_events_queue . m_deferred_events_queue . push_back (', rep='dq_push_back ( self ,', min=0),
